@@ -16,7 +16,7 @@ run() { # patch prop
   cd /repo && git checkout -- .
   echo -e "$name\t$prop\t$rc\t$line" >> $OUT
 }
-declare -A EXTRA=( [C16-B]="C12" [C10-A]="C01" [C06-A]="C01" [C13-B]="C09" [C02-A]="C03" [C02-B]="C03" [C03-A]="C02" [C03-B]="C02" [C07-A]="C02" [C01-B]="C06" [C06-B]="C01" [C07-R2]="C02" [C06-R2]="C01" [C12-R2]="C16" [C16-R2]="C12" [C02-R2]="C03" [C03-R2]="C02" )
+declare -A EXTRA=( [C16-B]="C12" [C10-A]="C01" [C06-A]="C01" [C13-B]="C09" [C02-A]="C03" [C02-B]="C03" [C03-A]="C02" [C03-B]="C02" [C07-A]="C02" [C01-B]="C06" [C06-B]="C01" [C07-R2]="C02" [C06-R2]="C01" [C12-R2]="C16" [C16-R2]="C12" [C02-R2]="C03" [C03-R2]="C02" [C02-R3]="C03 C12" [C06-R3]="C09" [C07-R3]="C03" )
 claimed=$(python3 -c "import json;print(' '.join(json.load(open('/verif/props.json')).keys()))")
 for d in /verif/seeded/C*/; do
   id=$(basename $d); prop=${id%%-*}
@@ -26,7 +26,7 @@ for d in /verif/seeded/C*/; do
 done
 for f in /verif/selftest/patches/revert_*.diff; do
   n=$(basename $f .diff)
-  case $n in revert_F2|revert_F3) p=C01;; revert_F4|revert_F10) p=C07;; revert_F5|revert_F16|revert_F17) p=C09;; revert_F7|revert_F9|revert_F18|revert_F19|revert_F20) p=C10;; revert_F11|revert_F22) p="C12";; revert_F12) p=C16;; revert_F23|revert_F24) p=C14;; revert_F26) p=C15;; revert_F13|revert_F14|revert_F15) p=C02;; *) p="";; esac
+  case $n in revert_F2|revert_F3) p=C01;; revert_F4|revert_F10) p=C07;; revert_F5|revert_F16|revert_F17|revert_F27|revert_F29) p=C09;; revert_F7|revert_F9|revert_F18|revert_F19|revert_F20) p=C10;; revert_F11|revert_F22) p="C12";; revert_F12) p=C16;; revert_F23|revert_F24) p=C14;; revert_F26) p=C15;; revert_F13|revert_F14|revert_F15) p=C02;; *) p="";; esac
   for q in $p; do run $f $q $n; done
 done
 rm -rf /var/tmp/seedmatrix-out
